@@ -118,6 +118,7 @@ UNBOUND_OK = set(
     ["%s.%s(%s,%s)" % (v, m, v, v) for v in ("V2s", "V3s", "V4s", "V2i64", "V3i64", "V4i64") for m in ("__iadd__", "__isub__", "__imul__")] +
     ["%s.__imod__(%s,%s)" % (v, v, v) for v in ("V3s", "V3i", "V3i64", "V3f", "V3d")] +
     ["V2s.__div__(V2s,V2s)", "V2i64.__div__(V2i64,V2i64)", "V3f.__imul__(V3f,M33f)", "V3d.__imul__(V3d,M33d)"] +
+    ["imath.cmp(f,f)", "imath.cmpt(f,f,f)", "imath.iszero(f,f)", "imath.equal(f,f,f)"] +      # not vectorised: no float overload reachable
     ["M44%s.%s(M44%s)" % (t, m, t) for t in "fd" for m in ("extractEulerXYZ", "extractEulerZYX", "extractScaling", "extractScalingAndShear")])
 TAG = os.path.basename(pyimath.BDIR)[len("pyimath"):]
 WD = os.path.join(lib.BUILD, "c20" + TAG)
@@ -281,7 +282,7 @@ def run(chk):
                    "minus, 3-argument clamp, Box.extendBy through the GENERATED extendBy of Gen/C13Box.lean)",
                    "translator harness/sym (Gen/C13Box.lean regenerated from ImathBox.h on every run, TV as in C13)",
                    "harness/py/poolshim.cpp (scripted WorkerPool, public API only), harness/py/c20_harness.py, c20_extra.py, ctypes",
-                   "harness/py/c20_scalar_ref.cpp: the table (python class, method, argument types) -> C++ library expression (1,292 "
+                   "harness/py/c20_scalar_ref.cpp: the table (python class, method, argument types) -> C++ library expression (1,318 "
                    "entries) compiled against the current headers; it states which library function each scalar binding stands for",
                    "cmake/ninja/g++ building the real module from the current tree; CPython 3.11 + Boost.Python 1.83; libm (powf/pow as "
                    "the reference of the array `**` operators)"]
@@ -321,34 +322,45 @@ def run(chk):
         except OSError:
             pass
 
-    # ---- build the real module, the shim, the theorems and the driver ---------------------------------
+    # ---- the Lean side runs in a background thread, concurrently with the module build and the python harness ------
+    import troute
+
+    def lean_side():
+        # Gen/C13Box.lean (Box::extendBy as extracted from the CURRENT ImathBox.h) is what Props/C20Box.lean and the
+        # driver's `boxn` command are about: regenerate it here, exactly as the C13 check does
+        tt = time.time()
+        bins = troute.build_extractors(chk, [dict(name="sym_c13", source="sym/sym_c13.cpp", half=True)])
+        if bins.get("sym_c13"):
+            troute.regenerate(chk, bins["sym_c13"], "c13")
+            troute.tv(chk, bins["sym_c13"], "c13", 64)
+        chk.extra["regenerate_c13_s"] = round(time.time() - tt, 1)
+        tt = time.time()
+        chk.check_theorems("ImathVerif.Props.C20", required=REQUIRED, extra_targets=["drv_dispatch"])
+        chk.check_theorems("ImathVerif.Props.C20Box", required=REQUIRED_BOX)
+        if chk.thorough:
+            chk.leanchecker("ImathVerif.Props.C20")
+            chk.leanchecker("ImathVerif.Props.C20Box")
+        chk.extra["theorems_s"] = round(time.time() - tt, 1)
+    lean_pool = ThreadPoolExecutor(max_workers=1)
+    lean_fut = lean_pool.submit(lean_side)
+
+    # ---- build the real module, the shim and the scalar reference --------------------------------------------------
     ok, log = pyimath.build()
     chk.oblige("build:pyimath(current tree)", "build", ok, None if ok else log[-1500:])
     chk.extra["pyimath_build_s"] = round(time.time() - t0, 1)
     if not ok:
         chk.fail("build:pyimath", "build:pyimath", "the imath python module does not build from the current tree",
                  {"output": log[-3000:]}, False)
-    # Gen/C13Box.lean (Box::extendBy as extracted from the CURRENT ImathBox.h) is what Props/C20Box.lean and the driver's
-    # `boxn` command are about: regenerate it here, exactly as the C13 check does
-    import troute
-    bins = troute.build_extractors(chk, [dict(name="sym_c13", source="sym/sym_c13.cpp", half=True)])
-    if bins.get("sym_c13"):
-        troute.regenerate(chk, bins["sym_c13"], "c13")
-        troute.tv(chk, bins["sym_c13"], "c13", 64)
-    okth, out = chk.check_theorems("ImathVerif.Props.C20", required=REQUIRED, extra_targets=["drv_dispatch"])
-    okbx, outbx = chk.check_theorems("ImathVerif.Props.C20Box", required=REQUIRED_BOX)
-    if chk.thorough:
-        chk.leanchecker("ImathVerif.Props.C20")
-        chk.leanchecker("ImathVerif.Props.C20Box")
     driver = os.path.join(lib.LEAN, ".lake", "build", "bin", "drv_dispatch")
-    chk.oblige("build:drv_dispatch", "build", os.path.exists(driver))
     if not ok:
+        lean_fut.result()
         return
     oks, shim, o = build_shim()
     chk.oblige("build:poolshim(current PyImathTask.h)", "build", oks, None if oks else o[-1500:])
     if not oks:
         chk.fail("build:poolshim", "build:poolshim", "the scripted WorkerPool does not compile/link against the current "
                  "PyImathTask.h: the public WorkerPool interface changed", {"output": o[-3000:]}, False)
+        lean_fut.result()
         return
 
     okr, sref, orf = lib.cxx_build("c20_scalar_ref" + TAG, ["py/c20_scalar_ref.cpp"] + [os.path.join(lib.REPO, "src", "Imath", f) for f in
@@ -374,6 +386,7 @@ def run(chk):
     if rc != 0 or rcx != 0:
         chk.oblige("enumerate entry points", "correspondence", False, (se + sex)[-800:])
         chk.fail("enumerate", "enumerate", "cannot import/introspect the built module", {"stderr": (se + sex)[-2000:], "rc": [rc, rcx]}, False)
+        lean_fut.result()
         return
     lst = json.loads(so)
     xlst = json.loads(sox)
@@ -476,7 +489,11 @@ def run(chk):
     mop = os.path.join(WD, "model_opts.json")
     json.dump(base, open(mop, "w"))
     mout = os.path.join(WD, "model.jsonl")
+    lean_fut.result()          # theorems checked, drv_dispatch built
+    chk.oblige("build:drv_dispatch", "build", os.path.exists(driver))
+    tt = time.time()
     rcm, som, sem = harness(["model", mop, mout], timeout=600)
+    chk.extra["model_tie_s"] = round(time.time() - tt, 1)
 
     # ---- aggregate -------------------------------------------------------------------------------------------
     eps, viols, crashes, herr, stats, safe_keys, model, mms = {}, [], [], [], [], set(), None, []
